@@ -720,6 +720,8 @@ pub struct ExploreStats {
     pub max_enabled: usize,
     pub bound: usize,
     pub capped: bool,
+    /// executions that stalled and were run again
+    pub retried_stalls: u64,
 }
 
 pub struct Execution<O> {
@@ -815,7 +817,17 @@ pub fn explore<O: Send + 'static>(
             stats.capped = true;
             break;
         }
-        let ex = run_once(cfg, &prefix, clock(), Arc::clone(&body));
+        let mut ex = run_once(cfg, &prefix, clock(), Arc::clone(&body));
+        // an execution that does not come to an end within the watchdog time gives no verdict;
+        // on a loaded machine that can be the machine: the same schedule is tried again (twice)
+        // before it is reported as a stall
+        let mut retries = 0;
+        while ex.stalled && retries < 2 {
+            retries += 1;
+            stats.retried_stalls += 1;
+            eprintln!("NOTE: an execution stalled (schedule {prefix:?}); trying the same schedule again ({retries})");
+            ex = run_once(cfg, &prefix, clock(), Arc::clone(&body));
+        }
         stats.schedules += 1;
         stats.choice_points += ex.points.len() as u64;
         stats.max_points = stats.max_points.max(ex.points.len());
